@@ -1,0 +1,17 @@
+//go:build verif
+
+package pause
+
+// Contracts for govc (see /verif/DESIGN.md). Comment-only file: it adds no code.
+// The pause protocol itself (C14) is not decided by contracts; these two contracts only say
+// what a stage worker may assume about its subscription handle. They are assumed (opaque),
+// not proved: sync.Map is outside the modelled subset.
+
+//@ func Subscribe
+//@   opaque
+//@   modifies nothing
+//@   ensures result != nil && fresh(result) && result.PauseCh != nil && result.ResumeCh != nil
+
+//@ func Unsubscribe
+//@   opaque
+//@   modifies chan::*
